@@ -209,16 +209,20 @@ def write_doc(d, path):
     libsbml.writeSBMLToFile(doc, str(path))
 
 
+_REAL_MODULES = {"math": math}
+
+
 class Import(Scenario):
     modules = ["mxlpy.model"]
     float_shim = ["mxlpy.model"]
 
-    def __init__(self, doc, second=None, first=None):
+    def __init__(self, doc, second=None, first=None, first_stem=None):
+        self.first_stem = first_stem  # file name (without .xml) of the document read first, e.g. the name of a standard module
         self.doc = doc
         self.second = second  # ("same_stem" | "other", doc2): read afterwards, must not disturb the first model
         self.first = first  # a document with the same file name (other directory), both on disk, read before this one
         self.key = f"C17/{doc['name']}" + (f"/then-{second[0]}-{second[1]['name']}" if second else "") + (
-            f"/after-same-stem-{first['name']}" if first else "")
+            (f"/after-same-stem-{first['name']}" if first_stem is None else f"/after-{first_stem}.xml-{first['name']}") if first else "")
         self._m = None
 
     def load(self):
@@ -232,9 +236,10 @@ class Import(Scenario):
             write_doc(self.doc, f)
             if self.first is not None:
                 (tmp / "first").mkdir()
-                write_doc(self.first, tmp / "first" / f"{stem}.xml")
+                first_file = tmp / "first" / f"{self.first_stem or stem}.xml"
+                write_doc(self.first, first_file)
                 try:
-                    sbml.read(tmp / "first" / f"{stem}.xml")
+                    sbml.read(first_file)
                 except Exception:  # noqa: BLE001
                     pass
             try:
@@ -242,6 +247,14 @@ class Import(Scenario):
             except Exception as e:  # noqa: BLE001
                 return ("error", e)
             mod = sys.modules.get(valid_filename(stem))
+            self._std_ok = None
+            if self.first_stem is not None:
+                import importlib
+
+                real = _REAL_MODULES[self.first_stem]
+                self._std_ok = (sys.modules.get(self.first_stem) is real, mod is None or mod.__dict__.get(self.first_stem, real) is real)
+                sys.modules[self.first_stem] = real  # whatever happened, later scenarios of this process see the real module
+                importlib.invalidate_caches()
             if self.second is not None:
                 kind, d2 = self.second
                 (tmp / "other").mkdir()
@@ -276,6 +289,9 @@ class Import(Scenario):
             ctx.true(f"the document is imported ({type(res[1]).__name__}: {res[1]})"[:170], False)
             return
         _, m, mod, ic = res
+        if getattr(self, "_std_ok", None) is not None:
+            ctx.true(f"reading {self.first_stem}.xml leaves the interpreter's module '{self.first_stem}' alone", self._std_ok[0])
+            ctx.true(f"the module generated for a later document imports the real '{self.first_stem}'", self._std_ok[1])
         if mod is not None:
             mod.__dict__["math"] = MATH if ctx.symbolic else math
         species = [s for s, _ in d["species"]]
@@ -381,6 +397,8 @@ def scenarios(tier, seed):
     scs.append(Import(b, first=a))
     scs.append(Import(a, first=b))
     scs.append(Import(make_doc("plain/fractional", features=("fractional",)), first=make_doc("plain/basic")))
+    # a document whose file name is that of a module the generated code imports
+    scs.append(Import(make_doc("plain/exp", features=("exp",)), first=make_doc("plain/basic"), first_stem="math"))
     if tier != "quick":
         import itertools as it
 
